@@ -187,8 +187,8 @@ static int N_URL_STD, N_B64_LARGE;
 static int W_ARRN, W_ARR20, W_B64_HI, W_B64_CTL, W_HEX_HI, W_HEX_CTL, W_WS_N, W_WS_N4, W_URL_LONG, W_URL_IN16, W_Q_3, W_Q_LONGV, W_HEX_MIXED, W_URL_WELL, W_URL_LOWER;
 // witnesses of the NUL / boundary-byte extension (strings with embedded NUL bytes through the URL families, form of the encoded text)
 static int W_B64_STR_NUL, W_SHA_STR_NUL, W_B64_TXT_NUL, W_HEX_TXT_NUL;
-static int W_URL_NUL, W_URL_NUL_LONG, W_URL_BND, W_URL_FORM, W_URLDEC_NUL, W_URLDEC_RAWNUL, W_Q_NULV, W_Q_NULK, W_Q_NULK0, W_Q_NUL3, W_Q_FORM, W_Q_BND, N_Q_SAMEKEY;
-static int W_SHA_HUGE, W_SHA_HIGHWORD, W_SELF_READ, W_SELF_WRITE, W_SELF_POISON, W_SELF_GUARD;
+static int W_URL_NUL, W_URL_NUL_LONG, W_URL_BND, W_URL_FORM, W_URLDEC_NUL, N_URLDEC_RAWNUL, W_Q_NULV, W_Q_NULK, W_Q_NULK0, W_Q_NUL3, W_Q_FORM, W_Q_BND, N_Q_SAMEKEY;
+static int W_SHA_HUGE, W_SHA_HIGHWORD, W_SELF_READ, W_SELF_WRITE, W_SELF_POISON, W_SELF_GUARD, W_SELF_SLACK_OK, W_SELF_SLACK_DEP, N_SLACK_RERUN;
 
 // One defect fails on millions of enumerated inputs: the first few failures of each class (counted across all processes in
 // shared memory) are written out as violations, further ones of the same class are only counted ("failures.<sig>").
@@ -224,11 +224,12 @@ static int g_form = 0;
 #if defined(__SANITIZE_ADDRESS__)
 extern "C" void __asan_set_error_report_callback(void (*)(const char*));
 #endif
-static volatile int a_flag = 0, a_corrupting = 0;
+static volatile int a_flag = 0, a_corrupting = 0, a_notslack = 0; // a_notslack: a finding other than a read of manually poisoned memory (the slack vfx::Flush poisons)
 static char a_msg[160];
 static void asan_cb(const char* report) { // replaces vf's callback: additionally tells reads (harmless for later cases) from writes / bad frees
 	a_flag = 1;
 	if (!strstr(report, "READ of size")) a_corrupting = 1;
+	if (!strstr(report, "READ of size") || !strstr(report, "use-after-poison")) a_notslack = 1;
 	if (a_msg[0]) return;
 	const char* p = strstr(report, "AddressSanitizer: ");
 	p = p ? p + 18 : report;
@@ -241,7 +242,7 @@ static void asan_cb(const char* report) { // replaces vf's callback: additionall
 	if (strstr(report, "WRITE of size")) strncat(a_msg, " (WRITE)", sizeof(a_msg) - strlen(a_msg) - 1);
 	else if (strstr(report, "READ of size")) strncat(a_msg, " (READ)", sizeof(a_msg) - strlen(a_msg) - 1);
 }
-static void asan_clear() { a_flag = 0; a_corrupting = 0; a_msg[0] = 0; }
+static void asan_clear() { a_flag = 0; a_corrupting = 0; a_notslack = 0; a_msg[0] = 0; }
 
 static void setcur(const std::string& kase, const char* crash_sig) { // publish the case before touching asl code
 	vf::cur(kase); vf::cur_sig(crash_sig);
@@ -327,6 +328,46 @@ struct Tight {
 	~Tight() { free(p); }
 };
 
+// A String argument is handed to the code under test with the rest of its own buffer (the bytes after the terminating NUL) poisoned (vfx::Flush), so that
+// an index running past the text is seen even where the buffer is larger than the text. But that slack belongs to the String: a library that copies a
+// String's whole buffer (a fixed-size copy of the inline array, a copy that keeps the capacity) or scans it a word at a time stays in bounds. So a call
+// whose only findings are reads of poisoned slack is not judged on them: it is run again with the slack readable and filled with two different byte
+// patterns (valid symbols of every codec here / '%'). A genuine out-of-bounds access shows in those runs as well (redzones are untouched); if the two
+// results differ, the result was computed from bytes behind the terminator and the finding stands; otherwise the reads were harmless and the result
+// is judged like any other.
+static bool same_result(const String& a, const String& b) { return vfx::S(a) == vfx::S(b); }
+static bool same_result(const ByteArray& a, const ByteArray& b) { return a.length() == b.length() && (a.length() <= 0 || memcmp(a.data(), b.data(), a.length()) == 0); }
+static bool same_result(const SHA1::Hash& a, const SHA1::Hash& b) { return memcmp(&a[0], &b[0], 20) == 0; }
+static bool same_result(const Dic<>& a, const Dic<>& b) {
+	std::map<Bytes, Bytes> x, y;
+	foreach2(String& k, const String& v, a) x[vfx::S(k)] = vfx::S(v);
+	foreach2(String& k2, const String& v2, b) y[vfx::S(k2)] = vfx::S(v2);
+	return x == y && a.length() == b.length();
+}
+template <class F>
+static auto flush_call(const String& s, F call) -> decltype(call()) {
+	char* slack; size_t nslack;
+	{
+		vfx::Flush fl(s);
+		slack = fl.b; nslack = fl.n;
+		decltype(call()) r = call();
+		if (!a_flag || a_notslack || !nslack) return r;
+	}
+	vf::add(N_SLACK_RERUN);
+	memset(slack, 'F', nslack);
+	asan_clear();
+	decltype(call()) r1 = call();
+	if (a_flag) return r1;
+	memset(slack, '%', nslack);
+	decltype(call()) r2 = call();
+	if (a_flag) return r2;
+	if (!same_result(r1, r2)) {
+		a_flag = 1;
+		strncpy(a_msg, "use-after-poison (READ) of the String's buffer behind its terminating NUL, and the result depends on those bytes", sizeof(a_msg) - 1);
+	}
+	return r1;
+}
+
 // ------------------------------------------------------------------------------------------------
 // (A) byte arrays: encode == standard text, decode(text) == bytes, every calling form
 // ------------------------------------------------------------------------------------------------
@@ -337,10 +378,10 @@ static void decoded_is(const ByteArray& r, const Bytes& d, const char* sig, D wh
 	if (asan(strcmp(sig, "b64_explicit_len") == 0 ? sig : "b64_oob", what, kase)) return;
 	if (!same(r, d)) bad(sig, what() + " = " + showarr(r) + ", expected [" + fmt("%d", (int)d.size()) + " bytes] " + vf::hex(d.substr(0, 24)), kase);
 }
-// the Array_<byte,N> overloads (how a SHA1::Hash is printed). The object is a heap block of exactly N bytes, so that a length other than N reads out of bounds
+// the Array_<byte,N> overloads (how a SHA1::Hash is printed). The object is a heap block of its own (N bytes as Array_ stands), so that a longer read is out of bounds;
+// a length other than N also gives a different text
 template <int N>
 static void check_fixed(const Bytes& d, const std::string& text, const std::string& htext, const std::string& kase) {
-	static_assert(sizeof(Array_<byte, N>) == N, "Array_<byte,N> is N bytes");
 	Array_<byte, N>* a = new Array_<byte, N>;
 	memcpy(a->ptr(), d.data(), N);
 	const Array_<byte, N>& ca = *a;
@@ -378,8 +419,7 @@ static void check_array(const Bytes& d, const std::string& kase, bool full) {
 				bad(vfx::S(e2) != text ? "b64_encode" : "hex_encode", "encodeBase64/encodeHex(ByteArray of " + fmt("%d", n) + " bytes) = " + show(vfx::S(e2)) + " / " + show(vfx::S(h2)), kase);
 			if (n <= 4096) { // String form: a counted byte string, NUL bytes included
 				String s = vfx::A(d);
-				vfx::Flush fl(s);
-				String e3 = encodeBase64(s);
+				String e3 = flush_call(s, [&]() { return encodeBase64(s); });
 				vf::add(C_EVAL);
 				if (memchr(d.data(), 0, d.size())) vf::add(W_B64_STR_NUL);
 				if (!asan("b64_oob", W("encodeBase64(String)"), kase) && vfx::S(e3) != text) bad("b64_encode", "encodeBase64(String " + show(d) + ") = " + show(vfx::S(e3)) + ", RFC 4648 text is " + show(text), kase);
@@ -396,13 +436,11 @@ static void check_array(const Bytes& d, const std::string& kase, bool full) {
 	}
 	if (form_on(F_B64_STRING)) { // decoding is exercised on the standard text, so it does not depend on asl's encoder
 		String t = vfx::A(text);
-		vfx::Flush fl(t);
-		decoded_is(decodeBase64(t), d, "b64_decode", W("decodeBase64(String " + show(text) + ")"), kase);
+		decoded_is(flush_call(t, [&]() { return decodeBase64(t); }), d, "b64_decode", W("decodeBase64(String " + show(text) + ")"), kase);
 	}
 	if (form_on(F_HEX_EVEN)) {
 		String t = vfx::A(htext);
-		vfx::Flush fl(t);
-		ByteArray r = decodeHex(t);
+		ByteArray r = flush_call(t, [&]() { return decodeHex(t); });
 		vf::add(C_EVAL);
 		if (r.length() < 0) bad("hex_neg_length", "decodeHex(" + show(htext) + ") returned length " + fmt("%d", r.length()), kase);
 		else if (!asan("hex_oob", W("decodeHex(" + show(htext) + ")"), kase) && !same(r, d)) bad("hex_decode", "decodeHex(" + show(htext) + ") = " + showarr(r) + ", expected " + vf::hex(d.substr(0, 24)), kase);
@@ -423,8 +461,7 @@ static void check_array(const Bytes& d, const std::string& kase, bool full) {
 			setsig("crash");
 			if (form_on(F_B64_STRING)) {
 				String t = vfx::A(w);
-				vfx::Flush fl(t);
-				decoded_is(decodeBase64(t), d, "b64_ws", W("decodeBase64(" + lay() + ") " + show(w)), kase);
+				decoded_is(flush_call(t, [&]() { return decodeBase64(t); }), d, "b64_ws", W("decodeBase64(" + lay() + ") " + show(w)), kase);
 				vf::add(W_WS);
 			}
 			if (n > 4096) continue; // the explicit-length forms of the layouts: every length of the per-length sweep
@@ -468,7 +505,7 @@ static void check_ws_text(const std::string& w, const std::string& kase) {
 	bool wspad = eq != std::string::npos && (w.find_first_of(" \t\r\n", eq) != std::string::npos || (eq && is_ws(w[eq - 1])));
 	bool seen = false; // the witnesses count texts that reached the decoder in at least one form
 	auto witness = [&]() { if (seen) return; seen = true; if (nws) vf::add(W_WS); if (wspad) vf::add(W_WS_PAD); };
-	if (form_on(F_B64_STRING)) { String t = vfx::A(w); vfx::Flush fl(t); decoded_is(decodeBase64(t), d, "b64_ws", W("decodeBase64(String " + show(w) + ")"), kase); witness(); }
+	if (form_on(F_B64_STRING)) { String t = vfx::A(w); decoded_is(flush_call(t, [&]() { return decodeBase64(t); }), d, "b64_ws", W("decodeBase64(String " + show(w) + ")"), kase); witness(); }
 	if (form_on(F_B64_CHARP)) { vfx::FlushBuf fb(w); decoded_is(decodeBase64(fb.p), d, "b64_ws", W("decodeBase64(char* " + show(w) + ")"), kase); witness(); }
 	// explicit length: the text (whitespace included) is exactly the first |w| characters at the pointer
 	int wn = (int)w.size();
@@ -531,7 +568,7 @@ static void check_b64_text(const std::string& s) {
 		if (ctl) vf::add(W_B64_CTL);
 		if (nul) vf::add(W_B64_TXT_NUL);
 	};
-	if (form_on(F_B64_STRING)) { String t = vfx::A(s); vfx::Flush fl(t); malformed_result(decodeBase64(t), "b64_oob", W("decodeBase64(String " + show(s) + ")"), kase); witness(); }
+	if (form_on(F_B64_STRING)) { String t = vfx::A(s); malformed_result(flush_call(t, [&]() { return decodeBase64(t); }), "b64_oob", W("decodeBase64(String " + show(s) + ")"), kase); witness(); }
 	vfx::FlushBuf fb(s);
 	if (form_on(F_B64_CHARP)) { malformed_result(decodeBase64(fb.p), "b64_oob", W("decodeBase64(char* " + show(s) + ")"), kase); witness(); }
 	setsig("b64_explicit_len");
@@ -564,8 +601,7 @@ static void check_hex_text(const std::string& s) {
 	}
 	if (!form_on(s.size() % 2 ? F_HEX_ODD : F_HEX_EVEN)) return;
 	String t = vfx::A(s);
-	vfx::Flush fl(t);
-	ByteArray r = decodeHex(t);
+	ByteArray r = flush_call(t, [&]() { return decodeHex(t); });
 	vf::add(C_EVAL);
 	// witnesses: texts that reached the decoder
 	if (s.size() % 2) { vf::add(W_HEX_ODD); if (s.size() >= 7) vf::add(W_HEX_ODD7); } else vf::add(W_HEX_EVEN);
@@ -610,11 +646,9 @@ static void check_url(const Bytes& s, int mode, const std::string& kase0 = std::
 	if (!form_on(F_URL)) return;
 	vf::add(C_EVAL);
 	String in = vfx::A(s);
-	vfx::Flush fl(in);
-	String e = Url::encode(in, mode != 0);
+	String e = flush_call(in, [&]() { return Url::encode(in, mode != 0); });
 	if (asan("url_oob", W("Url::encode(" + show(s) + fmt(", %d)", mode)), kase)) return;
-	String d;
-	{ vfx::Flush f2(e); d = Url::decode(e); }
+	String d = flush_call(e, [&]() { return Url::decode(e); });
 	if (asan("url_oob", W("Url::decode(" + show(vfx::S(e)) + ")"), kase)) return;
 	std::string es = vfx::S(e);
 	bool nul = s.find('\0') != std::string::npos, bnd = false;
@@ -640,8 +674,7 @@ static void check_urldec(const std::string& s) {
 	if (!form_on(F_URL)) return;
 	vf::add(C_EVAL);
 	String in = vfx::A(s);
-	vfx::Flush fl(in);
-	String d = Url::decode(in);
+	String d = flush_call(in, [&]() { return Url::decode(in); });
 	if (asan("url_oob", W("Url::decode(" + show(s) + ")"), kase)) return;
 	bool well = true, lowerhex = false; // every '%' followed by two hex digits?
 	for (size_t i = 0; i < s.size(); i++)
@@ -650,9 +683,11 @@ static void check_urldec(const std::string& s) {
 			else well = false;
 		}
 	if (!well) { vf::add(W_URL_MALFORMED); return; } // a truncated or non-hex escape was met: no value is demanded for it
+	// a raw NUL byte in the text: Url::encode never produces one (url_encode_form) and asl's String functions are free to treat the text as a C string there
+	// (parseQuery's own replace / split do): the call was made and stayed in bounds, no value is demanded. "%00" is a different matter and is compared.
+	if (s.find('\0') != std::string::npos) { vf::add(N_URLDEC_RAWNUL); return; }
 	Bytes exp = ref_unquote(s);
-	if (exp.find('\0') != std::string::npos) vf::add(W_URLDEC_NUL); // "%00" or a raw NUL: an asl::String holds it like any other byte
-	if (s.find('\0') != std::string::npos) vf::add(W_URLDEC_RAWNUL);
+	if (exp.find('\0') != std::string::npos) vf::add(W_URLDEC_NUL); // "%00": an asl::String holds the decoded NUL like any other byte
 	// well-formed percent-coded text, hex digits of either case (own signature: the statement judges decode on encode's output, which is upper case)
 	vf::add(W_URL_WELL); if (lowerhex) vf::add(W_URL_LOWER);
 	if (vfx::S(d) != exp) bad("url_decode_value", "Url::decode(" + show(s) + ") = " + show(vfx::S(d)) + ", RFC 3986 gives " + show(exp), kase);
@@ -724,8 +759,7 @@ static void check_query(const Entries& en, const std::string& kase0 = std::strin
 	if (strlen(*p) != (size_t)p.length() || !ref_pct_valid(vfx::S(p)))
 		bad("url_encode_form", "Url::params(" + ddf() + ") = " + show(vfx::S(p)) + fmt(" (length %d, strlen %d)", p.length(), (int)strlen(*p)) +
 		    (strlen(*p) != (size_t)p.length() ? ": a raw NUL byte in the query string" : ": not a percent-encoded text (RFC 3986 characters and %XX only)"), kase);
-	Dic<> q;
-	{ vfx::Flush f(p); q = Url::parseQuery(p); }
+	Dic<> q = flush_call(p, [&]() { return Url::parseQuery(p); });
 	if (asan("url_oob", W("Url::parseQuery(" + show(vfx::S(p)) + ")"), kase)) return;
 	std::map<Bytes, Bytes> got;
 	foreach2(String& k, const String& v, q) got[vfx::S(k)] = vfx::S(v);
@@ -767,8 +801,7 @@ static void check_sha(const Bytes& m, const std::string& kase, bool forms) {
 	bool hasnul = memchr(m.data(), 0, n) != 0;
 	if (form_on(F_SHA)) { // String form: the message is the String's length() bytes, NUL bytes included
 		String s = vfx::A(m);
-		vfx::Flush fl(s);
-		SHA1::Hash h = SHA1::hash(s);
+		SHA1::Hash h = flush_call(s, [&]() { return SHA1::hash(s); });
 		vf::add(C_EVAL);
 		if (hasnul) vf::add(W_SHA_STR_NUL);
 		if (!asan("sha_oob", W("SHA1::hash(String)"), kase) && memcmp(&h[0], exp.data(), 20) != 0)
@@ -841,6 +874,19 @@ static void asan_selftest() {
 	{ Tight t(Bytes("abc")); volatile const unsigned char* q = t.p; asan_clear(); sink = sink + q[3]; if (a_flag && !a_corrupting && strstr(a_msg, "heap-buffer-overflow")) vf::add(W_SELF_READ); }
 	{ String s = vfx::A("abc"); vfx::Flush fl(s); volatile const char* q = *s; asan_clear(); sink = sink + q[5]; if (a_flag && !a_corrupting) vf::add(W_SELF_POISON); }
 	{ String s = vfx::A(Bytes(40, 'x')); vfx::Flush fl(s); volatile const char* q = *s; asan_clear(); sink = sink + q[41]; if (a_flag && !a_corrupting) vf::add(W_SELF_POISON); }
+	{ // reads of a String's own slack: harmless when the result does not depend on them (whole-buffer copy), a finding when it does (index past the text)
+		String s = vfx::A("abc"), s40 = vfx::A(Bytes(40, 'x'));
+		asan_clear();
+		String c = flush_call(s, [&]() { char tmp[8]; const volatile char* q = *s; for (int i = 0; i < 8; i++) tmp[i] = q[i]; return String(tmp, s.length()); }); // copies 4 bytes of slack too
+		if (!a_flag && vfx::S(c) == "abc") vf::add(W_SELF_SLACK_OK);
+		asan_clear();
+		String e = flush_call(s, [&]() { const volatile char* q = *s; char x = q[s.length() + 2]; return String(&x, 1); });
+		if (a_flag && !a_corrupting && strstr(a_msg, "depends")) vf::add(W_SELF_SLACK_DEP);
+		asan_clear();
+		String g = flush_call(s40, [&]() { const volatile char* q = *s40; char x = q[s40.length() + 1]; return String(&x, 1); }); // heap String: slack or redzone, a finding either way
+		if (a_flag && !a_corrupting) vf::add(W_SELF_SLACK_DEP);
+		asan_clear();
+	}
 	{ vfx::FlushBuf fb("abc"); volatile const char* q = fb.p; asan_clear(); sink = sink + q[4]; if (a_flag && !a_corrupting) vf::add(W_SELF_READ); }
 	{ // the inaccessible page behind a mapped message: the overrun must kill the (grand)child
 		fflush(stdout); fflush(stderr);
@@ -1058,13 +1104,15 @@ int main(int argc, char** argv) {
 	W_B64_TXT_NUL = vf::counter("w.b64_text_with_NUL_byte_decoded"); W_HEX_TXT_NUL = vf::counter("w.hex_text_with_NUL_byte_decoded");
 	W_URL_NUL = vf::counter("w.url_input_with_NUL_byte_encoded_and_decoded"); W_URL_NUL_LONG = vf::counter("w.url_input_of_16_bytes_or_more_with_NUL_byte");
 	W_URL_BND = vf::counter("w.url_input_with_byte_at_an_edge_of_the_unreserved_set"); W_URL_FORM = vf::counter("w.url_encoded_text_judged_for_percent_encoded_form");
-	W_URLDEC_NUL = vf::counter("w.url_decode_result_with_NUL_byte_compared"); W_URLDEC_RAWNUL = vf::counter("w.url_decode_wellformed_text_with_raw_NUL_compared");
+	W_URLDEC_NUL = vf::counter("w.url_decode_result_with_NUL_byte_compared"); N_URLDEC_RAWNUL = vf::counter("url_decode_wellformed_texts_with_raw_NUL_run_but_value_not_demanded");
 	W_Q_NULV = vf::counter("w.query_value_with_NUL_byte"); W_Q_NULK = vf::counter("w.query_key_with_NUL_byte"); W_Q_NULK0 = vf::counter("w.query_key_starting_with_NUL_byte");
 	W_Q_NUL3 = vf::counter("w.query_three_or_more_entries_with_NUL_bytes"); W_Q_FORM = vf::counter("w.query_string_judged_for_percent_encoded_form");
 	W_Q_BND = vf::counter("w.query_key_or_value_with_DEL_0x80_0xff_or_unsafe_neighbour_of_a_letter_range");
 	N_Q_SAMEKEY = vf::counter("query_entry_lists_skipped_keys_equal_as_C_strings");
 	W_SHA_HUGE = vf::counter("w.sha_message_256MiB_or_more"); W_SHA_HIGHWORD = vf::counter("w.sha_bit_length_needs_high_count_word");
 	W_SELF_READ = vf::counter("w.selftest_asan_reports_read_overrun"); W_SELF_WRITE = vf::counter("w.selftest_asan_reports_write_overrun_as_corrupting");
+	W_SELF_SLACK_OK = vf::counter("w.selftest_harmless_read_of_own_string_slack_not_reported"); W_SELF_SLACK_DEP = vf::counter("w.selftest_result_depending_on_string_slack_reported");
+	N_SLACK_RERUN = vf::counter("calls_run_again_with_readable_slack_after_reads_of_poisoned_string_slack");
 	W_SELF_POISON = vf::counter("w.selftest_asan_reports_read_of_poisoned_string_slack"); W_SELF_GUARD = vf::counter("w.selftest_guard_page_kills_overrun_of_mapped_message");
 	if (vf::opt.replay) { vf::parallel(1, [&](uint64_t) { run_case(vf::opt.kase); }); return vf::finish(); }
 	bool T = vf::opt.thorough();
@@ -1072,9 +1120,9 @@ int main(int argc, char** argv) {
 	// ---- the memory oracle is live (otherwise: harness error, nothing below would mean anything) ------
 	if (!vf::have_asan()) { fprintf(stderr, "c15: built without AddressSanitizer: the in-bounds part of the property cannot be judged\n"); return 2; }
 	run_cases(1, [&](uint64_t) { asan_selftest(); });
-	if (vf::get(W_SELF_READ) != 2 || vf::get(W_SELF_WRITE) != 1 || vf::get(W_SELF_POISON) != 2 || vf::get(W_SELF_GUARD) != 1 || vf::nviolations()) {
-		fprintf(stderr, "c15: AddressSanitizer self-test failed (read overruns reported %d/2, write overrun %d/1, poisoned slack %d/2, guard page %d/1): the memory oracle is not live\n",
-		        (int)vf::get(W_SELF_READ), (int)vf::get(W_SELF_WRITE), (int)vf::get(W_SELF_POISON), (int)vf::get(W_SELF_GUARD));
+	if (vf::get(W_SELF_READ) != 2 || vf::get(W_SELF_WRITE) != 1 || vf::get(W_SELF_POISON) != 2 || vf::get(W_SELF_GUARD) != 1 || vf::get(W_SELF_SLACK_OK) != 1 || vf::get(W_SELF_SLACK_DEP) != 2 || vf::nviolations()) {
+		fprintf(stderr, "c15: AddressSanitizer self-test failed (read overruns reported %d/2, write overrun %d/1, poisoned slack %d/2, guard page %d/1, harmless slack read let through %d/1, slack-dependent result reported %d/2): the memory oracle is not live\n",
+		        (int)vf::get(W_SELF_READ), (int)vf::get(W_SELF_WRITE), (int)vf::get(W_SELF_POISON), (int)vf::get(W_SELF_GUARD), (int)vf::get(W_SELF_SLACK_OK), (int)vf::get(W_SELF_SLACK_DEP));
 		return 2;
 	}
 	// reference digests of the huge all-zero messages (in parallel; each worker reads its own mapping), confirmed by python below
